@@ -125,4 +125,15 @@ PLAN = {
         "covers_by_harness": {"VfC16_Update": ["applied"]},
         "tiers": {"quick": {"params": {"nobj": 2}, "timeout_s": 1200}, "thorough": {"params": {"nobj": 3}, "timeout_s": 6000}},
     },
+    "C17": {
+        "level_text": "sideEffectActor.InboxForwarding on a received Create with symbolic 'seen before' (Exists as an uninterpreted predicate of the id), 1..2 to/cc/audience entries each owned or not and stored as Note / Collection / OrderedCollection / Follow / Person / absent, a value chain through tag and object given as IRI or embedded Note with inReplyTo, remote reply documents as an uninterpreted function of the IRI (Note with parent, Note without, unreachable, unknown type), ownership an uninterpreted predicate, depth limit 1..d, filter passing all / none / the first: BatchDeliver happens exactly when not seen, some owned collection is addressed and the reference reachability predicate holds; the filter is asked once about exactly the owned collections in order; recipients are the members of the filtered collections; the payload tree equals the received activity (also when it still carries bcc/bto); the activity is recorded exactly once iff not seen (one inductive step for repeated deliveries).",
+        "level_note": "Trusted: symgo, stdlib models, cvc5, the reference reachability function in harness/pub/zz_vf_c17.go; ids written in the request are pairwise distinct (aliasing with locks is C09's subject); two slices (conditions / collections+filter) instead of their product",
+        "pkg": "./pub",
+        "explanation": EXPL + "C17: reference predicate for the three forwarding conditions evaluated over the same uninterpreted world and compared with the ghost log.",
+        "bounds": "quick: depth limit 1..2, chain depth <= 2 plus fetched parents, <=1 member per collection, <=2 addressed entries; thorough: depth 1..3, <=2 members",
+        "outside": "deeper chains; more than 2 addressed entries; target and inReplyTo on the activity itself",
+        "assumptions": COMMON_ASSUME,
+        "covers_by_harness": {"VfC17_Conditions": ["forwarded", "not-forwarded", "seen-before"], "VfC17_Collections": ["forwarded", "not-forwarded"]},
+        "tiers": {"quick": {"params": {"depth": 2, "naddr": 2, "items": 1}, "timeout_s": 1200}, "thorough": {"params": {"depth": 3, "naddr": 2, "items": 2}, "timeout_s": 6000}},
+    },
 }
